@@ -263,4 +263,6 @@ pub fn run(rep: &mut Report, rng: &mut Rng, thorough: bool) {
             rep.case(sig, !data.is_empty(), || detail());
         }
     }
+    // the LZIP writer model in fast mode (Model/LzipWriter.lean), byte exact
+    crate::fastw::run_lzip(rep, &mut rng.fork(), thorough);
 }
